@@ -12085,7 +12085,7 @@ Tree_get_node_argument(Tree *self, PyObject *args, int *node)
     if (Tree_check_state(self) != 0) {
         goto out;
     }
-    if (!PyArg_ParseTuple(args, "I", node)) {
+    if (!PyArg_ParseTuple(args, "i", node)) {
         goto out;
     }
     if (Tree_check_bounds(self, *node)) {
@@ -12119,7 +12119,7 @@ Tree_is_descendant(Tree *self, PyObject *args)
     if (Tree_check_state(self) != 0) {
         goto out;
     }
-    if (!PyArg_ParseTuple(args, "II", &u, &v)) {
+    if (!PyArg_ParseTuple(args, "ii", &u, &v)) {
         goto out;
     }
     if (Tree_check_bounds(self, (tsk_id_t) u)) {
@@ -12383,7 +12383,7 @@ Tree_get_next_sample(Tree *self, PyObject *args)
     if (Tree_check_state(self) != 0) {
         goto out;
     }
-    if (!PyArg_ParseTuple(args, "I", &in_index)) {
+    if (!PyArg_ParseTuple(args, "i", &in_index)) {
         goto out;
     }
     num_samples = (int) tsk_treeseq_get_num_samples(self->tree->tree_sequence);
@@ -13897,15 +13897,15 @@ static PyObject *
 CompressedMatrix_get_site(CompressedMatrix *self, PyObject *args)
 {
     PyObject *ret = NULL;
-    unsigned int site;
+    int site;
 
     if (CompressedMatrix_check_state(self) != 0) {
         goto out;
     }
-    if (!PyArg_ParseTuple(args, "I", &site)) {
+    if (!PyArg_ParseTuple(args, "i", &site)) {
         goto out;
     }
-    ret = convert_compressed_matrix_site(self->compressed_matrix, site);
+    ret = convert_compressed_matrix_site(self->compressed_matrix, (unsigned int) site);
 out:
     return ret;
 }
@@ -14133,15 +14133,15 @@ static PyObject *
 ViterbiMatrix_get_site(ViterbiMatrix *self, PyObject *args)
 {
     PyObject *ret = NULL;
-    unsigned int site;
+    int site;
 
     if (ViterbiMatrix_check_state(self) != 0) {
         goto out;
     }
-    if (!PyArg_ParseTuple(args, "I", &site)) {
+    if (!PyArg_ParseTuple(args, "i", &site)) {
         goto out;
     }
-    ret = convert_compressed_matrix_site(&self->viterbi_matrix->matrix, site);
+    ret = convert_compressed_matrix_site(&self->viterbi_matrix->matrix, (unsigned int) site);
 out:
     return ret;
 }
